@@ -886,8 +886,22 @@ def misc_twins():
     cases.append(("join_spawn", "", "{ let (a, b) = join_spawn! { %s }; a() + b() }" % thunks, rthunk, "sp:lazy_branch_is_a_closure_literal"))
     jl = "fn jl<A: FnOnce() -> X, X, B: FnOnce() -> Y, Y>(a: A, b: B) -> (X, Y) { (a(), b()) }"
     cases.append(("join", jl, "{ let (a, b) = join! { lazy_branches(true) custom_joiner(jl) %s }; a() + b() }" % thunks, rthunk, "sp:lazy_branch_is_a_closure_literal"))
+    # (c) an invocation that is evaluated while its thread is unwinding (a flush-on-drop guard): every callback still runs
+    #     (seeded change C10-m skips the `??` callback there)
+    guard = "struct G; impl Drop for G { fn drop(&mut self) { let _ = %s; } } let __r = ::std::panic::catch_unwind(|| { let _g = G; if yes_always() { panic!(\"unwinding\") } }); "
+    yes = "fn yes_always() -> bool { true } "
+    cases.append(("join", yes + guard % "join! { Some(8u32) ?? |v: &Option<u32>| { z(1, v); } |> |v| { z(2, &v); v } ~|> |v| { z(3, &v); v } }", "__r.is_err()",
+                  "{ let o = Some(8u32); z(1, &o); let o = o.map(|v| { z(2, &v); v }); o.map(|v| { z(3, &v); v }) }", "sp:evaluated_during_unwinding"))
     for (kind, pre, mexpr, ref, tag) in cases:
+        if tag == "sp:evaluated_during_unwinding":
+            pre, ref = pre, ref
         def mk(pid, kind=kind, pre=pre, mexpr=mexpr, ref=ref, tag=tag):
+            if tag == "sp:evaluated_during_unwinding":
+                m = "pub fn m_%d() -> String { %s let __res = %s; dbg(__res) }" % (pid, pre, mexpr)
+                r = "pub fn r_%d() -> String { %s let __res = %s; dbg(__res) }" % (pid, yes + guard % ref, mexpr)
+                ent = "Twin { id: %d, kind: %s, m: m_%d, r: r_%d, srcs: &[], branches: &[(1, 5), (5, 7)], tags: %s, text: %s, reference: %s, max_id: 8 }" % (
+                    pid, rs(kind), pid, pid, rs("wrap," + tag), rs(pre), rs(ref))
+                return m + "\n" + r, ent
             m = "pub fn m_%d() -> String { %s let __res = %s; dbg(__res) }" % (pid, pre, mexpr)
             r = "pub fn r_%d() -> String { %s let __res = %s; dbg(__res) }" % (pid, pre, ref)
             ent = "Twin { id: %d, kind: %s, m: m_%d, r: r_%d, srcs: &[], branches: &[(1, 5), (5, 7)], tags: %s, text: %s, reference: %s, max_id: 8 }" % (
